@@ -119,6 +119,7 @@ struct Totals {
   static_checked: u64,
   static_ambiguous: u64,
   carried_five: u64,
+  cancelled: u64,
 }
 
 fn check_program(ctx: &mut Ctx, prog: &program::Program, pidx: u64, stepper: Stepper, steps: u64, t: &mut Totals) {
@@ -332,6 +333,9 @@ fn check_program(ctx: &mut Ctx, prog: &program::Program, pidx: u64, stepper: Ste
     }
     if dispatched {
       t.dispatches += 1;
+      if ev.iter().any(|e| e.kind == EV_IRQ_VECTOR && e.a == 0 && e.b == 0) {
+        t.cancelled += 1; // the push took away every pending source: PC = 0x0000, still five cycles
+      }
     }
     t.consumed += consumed as u64;
     t.delivered += delivered as u64;
@@ -415,7 +419,7 @@ pub fn run(ctx: &mut Ctx) {
   let seed = ctx.seed;
   let nprog: u64 = if thorough { 1200 } else { 160 };
   let steps: u64 = if thorough { 30_000 } else { 12_000 };
-  let mut t = Totals { steps_run: 0, steps_suspended: 0, dispatches: 0, consumed: 0, delivered: 0, frames: 0, max_frame_clocks: 0, frame_margin_min: u64::MAX, frame_synchronous: 0, static_checked: 0, static_ambiguous: 0, carried_five: 0 };
+  let mut t = Totals { steps_run: 0, steps_suspended: 0, dispatches: 0, consumed: 0, delivered: 0, frames: 0, max_frame_clocks: 0, frame_margin_min: u64::MAX, frame_synchronous: 0, static_checked: 0, static_ambiguous: 0, carried_five: 0, cancelled: 0 };
   for p in 0..nprog {
     if !ctx.mine(p) {
       continue;
@@ -468,10 +472,25 @@ pub fn run(ctx: &mut Ctx) {
       ctx.distinct_key(hash_words(&[nprog + 2 + lead, 0xb10e]));
     }
   }
+  // and dispatches that their own push cancels (SP = 0x0000: the pushed high byte lands on
+  // IE; SP = 0xFF10: on IF): they cost five machine cycles like any other, and the devices
+  // must receive those twenty clocks
+  for (k, &high) in [0x01u8, 0x02, 0x10, 0x3b].iter().enumerate() {
+    let idx = nprog + 8 + k as u64;
+    if ctx.mine(idx) {
+      let (image, description) = crate::gen::pressure::cancelled_dispatch_image(high);
+      let prog = program::Program { image, cart_type: 0x00, banks: 2, features: Default::default(), description };
+      for &st in [Stepper::Update, Stepper::RunCodeBlock].iter() {
+        check_program(ctx, &prog, idx, st, 3000, &mut t);
+      }
+      ctx.distinct_key(hash_words(&[idx, 0xb10f]));
+    }
+  }
   ctx.count("evaluations", t.steps_run + t.steps_suspended);
   ctx.count("steps:running", t.steps_run);
   ctx.count("steps:halted-or-stopped", t.steps_suspended);
   ctx.count("dispatches", t.dispatches);
+  ctx.count("dispatches-cancelled-by-their-own-push", t.cancelled);
   ctx.count("machine-cycles-consumed", t.consumed);
   ctx.count("clocks-delivered", t.delivered);
   ctx.count("static-cost-checks", t.static_checked);
